@@ -4,13 +4,20 @@
 //   case <L> <N> <opts> <gran ms> <base hex> <suffix hex> <t0 ms> <tz>   fresh directory, clock := t0, process time zone :=
 //        <tz> minutes east of UTC (a POSIX TZ string such as VRF-09:00, no tz database needed), sink constructed
 //        optional after <tz>: <codec> ("-" or a QTextCodec name set with QTextCodec::setCodecForLocale before the sink is
-//        created) and <quiet> (1 = no flush and no listing until the `end` line: every other line prints "-")
+//        created) and <quiet> (1 = no flush and no listing until the `end` line: every other line prints "-") and
+//        <TZ hex> (a full POSIX TZ string with daylight-saving rules, e.g. CET-1CEST,M3.5.0,M10.5.0/3; overrides <tz>)
 //   w <payload hex> [<type>] | adv <ms> | restart | put <name hex> <bytes hex>
 //        <type> = the QtMsgType of the message, 0 debug 1 warning 2 critical 3 fatal 4 info (default); the sink is called
 //        directly, so a fatal-typed record does not abort the process
+//   w <raw hex> <type> <fmt mode> <fmt hex> [<age ms>]   the long form: <raw> is LogMessage::message(); <fmt mode> 0 = no formatted
+//        text set (isFormatted() false: the raw text is shown), 1 = setFormattedMessage(<fmt>) - "-" is the EMPTY, non-null
+//        string, which is what is shown then; <age> = the message object was constructed that many ms before it is sent
+//        (LogMessage samples the wall clock when it is constructed: a queued message of asynchronous logging)
+//   mkdir <name hex>     somebody creates a sub-directory of that name (a rename onto it is refused by the kernel / QFile)
 //   w2 <payload hex> [<type>]   write through a SECOND live sink object on the same path (created at its first use)
-//   wo <file name hex> <payload hex> [<type>]   write through a live sink object (same L, N, options; created at its first use,
-//        destroyed by restart / end) on ANOTHER log file of the same directory: two unrelated sinks of one process
+//   wo <file name hex> <payload hex> [<type> [<N>]]   write through a live sink object (same L, options; N as given at its
+//        first use, else the case's; created at its first use, destroyed by restart / end) on ANOTHER log file of the same
+//        directory: two unrelated sinks of one process
 //   sparse <bytes>       truncate(2) the active file to that size (a sparse file; listings show big files as @<size>)
 //   end                  destroy the sink object(s) and print the listing (the only listing of a quiet case)
 // output per line: <name hex>:<mtime ms>:<content hex>;...   (sorted by name hex; "-" = empty)
@@ -26,6 +33,7 @@
 #include <QDir>
 #include <QFile>
 #include <QTextCodec>
+#include <functional>
 #include <iostream>
 #include <sstream>
 #include <map>
@@ -118,6 +126,21 @@ int main(int argc, char **argv)
         if (!(is >> t)) t = 4;
         return t == 0 ? QtDebugMsg : t == 1 ? QtWarningMsg : t == 2 ? QtCriticalMsg : t == 3 ? QtFatalMsg : QtInfoMsg;
     };
+    // builds the message of a `w` line (short or long form) and hands it to f
+    auto with_msg = [&mtype, &ctx](std::istringstream &is, const std::function<void(const LogMessage &)> &f) {
+        std::string h; is >> h;
+        const auto ty = mtype(is);
+        int mode = 0; std::string fh = "-"; long long age = 0;
+        is >> mode >> fh >> age;
+        if (age > 0) g_ms -= age;                         // the message object is older than the send
+        LogMessage m(ty, ctx, QString::fromUtf8(unhex(h)));
+        if (age > 0) g_ms += age;
+        if (mode == 1) {
+            const auto f8 = unhex(fh);
+            m.setFormattedMessage(f8.isEmpty() ? QStringLiteral("") : QString::fromUtf8(f8));   // "" is empty but NOT null
+        }
+        f(m);
+    };
     bool quiet = false;
     int L = 0, N = 0, o = 0, ncase = 0;
     QString path;
@@ -131,8 +154,8 @@ int main(int argc, char **argv)
             delete sink2; sink2 = nullptr;
             drop_others();
             if (!dir.isEmpty()) QDir(dir).removeRecursively();
-            std::string b, s, codec = "-"; long long t0; int tz = 0, q = 0;
-            is >> L >> N >> o >> g_gran >> b >> s >> t0 >> tz >> codec >> q;
+            std::string b, s, codec = "-", tzs = "-"; long long t0; int tz = 0, q = 0;
+            is >> L >> N >> o >> g_gran >> b >> s >> t0 >> tz >> codec >> q >> tzs;
             quiet = q != 0;
             QTextCodec::setCodecForLocale(codec == "-" || codec.empty() ? nullptr : QTextCodec::codecForName(codec.c_str()));
             g_ms = t0;
@@ -141,6 +164,7 @@ int main(int argc, char **argv)
                 int a = tz < 0 ? -tz : tz;
                 snprintf(buf, sizeof buf, "VRF%c%02d:%02d", tz > 0 ? '-' : '+', a / 60, a % 60);
                 setenv("TZ", tz == 0 ? "UTC" : buf, 1);
+                if (tzs != "-" && !tzs.empty()) setenv("TZ", unhex(tzs).constData(), 1);
                 tzset();
             }
             dir = root + QStringLiteral("/c%1").arg(ncase++);
@@ -156,21 +180,20 @@ int main(int argc, char **argv)
             delete sink;
             sink = new RotatingFileSink(path, L, N, RotatingFileSink::Options(o));
         } else if (op == "w") {
-            std::string h; is >> h;
-            LogMessage m(mtype(is), ctx, QString::fromUtf8(unhex(h)));
-            sink->send(m);
+            with_msg(is, [&](const LogMessage &m) { sink->send(m); });
             if (!quiet) sink->flush();
         } else if (op == "w2") {
-            std::string h; is >> h;
             if (!sink2) sink2 = new RotatingFileSink(path, L, N, RotatingFileSink::Options(o));
-            LogMessage m(mtype(is), ctx, QString::fromUtf8(unhex(h)));
-            sink2->send(m);
+            with_msg(is, [&](const LogMessage &m) { sink2->send(m); });
             sink2->flush();
         } else if (op == "wo") {
             std::string n, h; is >> n >> h;
             auto &so = others[n];
-            if (!so) so = new RotatingFileSink(dir + "/" + QFile::decodeName(unhex(n)), L, N, RotatingFileSink::Options(o));
-            LogMessage m(mtype(is), ctx, QString::fromUtf8(unhex(h)));
+            const auto ty = mtype(is);
+            int n2 = N;
+            if (!(is >> n2)) n2 = N;
+            if (!so) so = new RotatingFileSink(dir + "/" + QFile::decodeName(unhex(n)), L, n2, RotatingFileSink::Options(o));
+            LogMessage m(ty, ctx, QString::fromUtf8(unhex(h)));
             so->send(m);
             so->flush();
         } else if (op == "sparse") {
@@ -183,6 +206,9 @@ int main(int argc, char **argv)
             quiet = false;
         } else if (op == "adv") {
             long long d; is >> d; if (d > 0) g_ms += d;
+        } else if (op == "mkdir") {
+            std::string n; is >> n;
+            QDir(dir).mkdir(QFile::decodeName(unhex(n)));
         } else if (op == "put") {
             std::string n, h; is >> n >> h;
             QFile f(dir + "/" + QFile::decodeName(unhex(n)));
